@@ -106,7 +106,19 @@ def check_sort(case):
                                   "mixed-feas" if mixed else "same-feas", "n>12" if n > 12 else "n<=12"]}
 
 
+def simplify(case):
+    """drop one individual at a time; then try the identity as second order"""
+    costs = case["costs"]
+    n = len(costs)
+    for i in range(n):
+        keep = [k for k in range(n) if k != i]
+        remap = {k: j for j, k in enumerate(keep)}
+        yield {"costs": [costs[k] for k in keep], "order2": [remap[k] for k in case["order2"] if k in remap]}
+    if case["order2"] != list(range(n)):
+        yield {"costs": costs, "order2": list(range(n))}
+
+
 CLAUSES = [
-    Clause("rank", population(24), check_sort, quick=3000, thorough=12000, quick_shards=4),
-    Clause("rank-large", population(60), check_sort, quick=300, thorough=3000, quick_shards=2),
+    Clause("rank", population(24), check_sort, quick=3000, thorough=12000, quick_shards=4, simplify=simplify),
+    Clause("rank-large", population(60), check_sort, quick=300, thorough=3000, quick_shards=2, simplify=simplify),
 ]
